@@ -10,6 +10,7 @@ package main
 // `a := b` definitions) or the same expression text.
 
 import (
+	"fmt"
 	"go/ast"
 	"go/token"
 	"go/types"
@@ -181,6 +182,143 @@ func (c *Ctx) runSpawnJoin(rule string, pkgs []*packages.Package) {
 						}
 					}
 				}
+			}
+		}
+	}
+}
+
+// LOOPCAPTURE — the module declares a Go version below 1.22, so a `for` loop
+// has ONE variable per loop, shared by all iterations. A goroutine started in
+// the loop whose function literal reads the loop variable (instead of
+// receiving it as an argument) races with the loop's increment and sees
+// whatever value the variable has when the goroutine gets to run: the work
+// split between the workers is lost.
+//
+// STRIDE — workers started in a loop counted by N, each given its loop index
+// as start and striding through the work with `idx += M`, partition the work
+// only when M and N are the same quantity.
+
+func (c *Ctx) goVersionBelow122() bool {
+	for _, p := range c.Pkgs {
+		if p.Module != nil && p.Module.Path == repoMod {
+			v := p.Module.GoVersion
+			var maj, min int
+			fmt.Sscanf(v, "%d.%d", &maj, &min)
+			return maj == 1 && min < 22
+		}
+	}
+	return true
+}
+
+func (c *Ctx) runLoopCapture(prefix string, pkgs []*packages.Package) {
+	old := c.goVersionBelow122()
+	for _, p := range pkgs {
+		if p == nil {
+			continue
+		}
+		info := p.TypesInfo
+		for _, file := range p.Syntax {
+			for _, d := range file.Decls {
+				fd, ok := d.(*ast.FuncDecl)
+				if !ok || fd.Body == nil {
+					continue
+				}
+				fobj, _ := info.Defs[fd.Name].(*types.Func)
+				n := 0
+				ast.Inspect(fd.Body, func(nd ast.Node) bool {
+					var body *ast.BlockStmt
+					loopVars := map[types.Object]bool{}
+					var bound ast.Expr
+					switch x := nd.(type) {
+					case *ast.ForStmt:
+						body = x.Body
+						if as, ok := x.Init.(*ast.AssignStmt); ok && as.Tok == token.DEFINE {
+							for _, l := range as.Lhs {
+								if id, ok := l.(*ast.Ident); ok {
+									loopVars[info.Defs[id]] = true
+								}
+							}
+						}
+						bound = countedBound(x)
+					case *ast.RangeStmt:
+						body = x.Body
+						if x.Tok == token.DEFINE {
+							for _, e := range []ast.Expr{x.Key, x.Value} {
+								if id, ok := e.(*ast.Ident); ok && id.Name != "_" {
+									loopVars[info.Defs[id]] = true
+								}
+							}
+						}
+					}
+					if body == nil {
+						return true
+					}
+					for _, st := range body.List {
+						gs, ok := st.(*ast.GoStmt)
+						if !ok {
+							continue
+						}
+						fl, ok := gs.Call.Fun.(*ast.FuncLit)
+						if !ok {
+							continue
+						}
+						n++
+						c.analysed(objName(fobj))
+						key := objName(fobj) + " goroutine#" + itoa(n)
+						var captured *ast.Ident
+						ast.Inspect(fl.Body, func(n2 ast.Node) bool {
+							if id, ok := n2.(*ast.Ident); ok && loopVars[info.Uses[id]] && captured == nil {
+								captured = id
+							}
+							return true
+						})
+						switch {
+						case captured != nil && old:
+							c.bad(prefix+".CAPTURE", key, captured.Pos(), "the goroutine reads the loop variable "+captured.Name+" through its closure; with the module's Go version (< 1.22) all iterations share that variable, so the worker races with the loop and works on another iteration's share")
+						default:
+							c.ok(prefix+".CAPTURE", key, gs.Pos(), "the goroutine does not read a per-loop variable through its closure")
+						}
+						// STRIDE: go func(start int) { for idx := start; ...; idx += M } (i) in a loop counted by N
+						if bound == nil || len(gs.Call.Args) == 0 || fl.Type.Params == nil {
+							continue
+						}
+						params := map[types.Object]bool{}
+						for _, f := range fl.Type.Params.List {
+							for _, nm := range f.Names {
+								params[info.Defs[nm]] = true
+							}
+						}
+						ast.Inspect(fl.Body, func(n2 ast.Node) bool {
+							fs, ok := n2.(*ast.ForStmt)
+							if !ok || fs.Init == nil || fs.Post == nil {
+								return true
+							}
+							as, ok := fs.Init.(*ast.AssignStmt)
+							if !ok || len(as.Rhs) != 1 {
+								return true
+							}
+							sid, ok := as.Rhs[0].(*ast.Ident)
+							if !ok || !params[info.Uses[sid]] {
+								return true
+							}
+							post, ok := fs.Post.(*ast.AssignStmt)
+							if !ok || post.Tok != token.ADD_ASSIGN || len(post.Rhs) != 1 {
+								return true
+							}
+							skey := objName(fobj) + " stride of goroutine#" + itoa(n)
+							a := singleDef(info, fd.Body, bound)
+							b := singleDef(info, fd.Body, post.Rhs[0])
+							same := types.ExprString(a) == types.ExprString(b)
+							if same {
+								c.ok(prefix+".STRIDE", skey, fs.Pos(), "the workers stride by the number of workers started ("+types.ExprString(a)+")")
+							} else {
+								c.bad(prefix+".STRIDE", skey, fs.Pos(), types.ExprString(bound)+" workers are started but each strides by "+types.ExprString(post.Rhs[0])+": items are processed twice or never")
+							}
+							return true
+						})
+					}
+					return true
+				})
 			}
 		}
 	}
